@@ -23,6 +23,7 @@ from bounded.oracles_abelian import (
     gen_small_pairs,
     merge_tables,
     norm_axes,
+    rand_dtype,
     rand_pair,
     rand_partner_cm,
     scalar_equal,
@@ -36,7 +37,7 @@ CONTRACTS = {
     "C02.tensordot_dense": (
         "sr.tensordot / autoray.do('tensordot') of two abelian arrays (Z2, U1, Z2Z2, U1U1 static+generic classes, Z4 generic) sharing 0..3 matched index pairs "
         "(same table opposite direction, or a strict sub-/super-table on one side), every order of contracted axes, int and negative axes, "
-        "modes auto/fused/blockwise, missing blocks, nothing aligned, scalar results with preserve_array False/True, outer products, float64/complex128 (also mixed)",
+        "modes auto/fused/blockwise, missing blocks, nothing aligned, scalar results with preserve_array False/True, outer products, float64/complex128/float32/complex64 (also mixed; integer fills, exact)",
         "quick: exhaustive for operands of rank<=2 over index structures with <=2 charges from the first 2 charges of the symmetry (fixed block sizes), all total charges, "
         "every sector subset (<=4 valid sectors) -- about 9e4 pairs -- then seeded random pairs up to rank 4 with <=3 charges per index, sizes 1..3; "
         "thorough: the first 3 charges for pairs with rank sum <= 3, and 1.5e6 random cases",
@@ -159,7 +160,7 @@ def _rand_einsum_case(rng, sym):
         cm, _ = rand_partner_cm(rng, sym, idxs[i], p_sub=0.25)
         idxs[j] = {"cm": cm, "dual": not idxs[i]["dual"]}
     # prefer a total charge that the traced structure can carry: pick from reachable at random
-    spec = rand_array_spec(rng, sym, indices=idxs, dtype="complex128" if rng.random() < 0.4 else "float64")
+    spec = rand_array_spec(rng, sym, indices=idxs, dtype=rand_dtype(rng))
     return {"contract": "C02.einsum_dense", "a": spec, "eq": eq}
 
 
@@ -213,7 +214,7 @@ def gen_cases(tier, seed):
             idxs = [i0, {"cm": cm, "dual": not i0["dual"]}]
             if rng.random() < 0.5:
                 idxs = idxs[::-1]
-            spec = rand_array_spec(rng, sym, indices=idxs, dtype="complex128" if rng.random() < 0.4 else "float64")
+            spec = rand_array_spec(rng, sym, indices=idxs, dtype=rand_dtype(rng))
             yield {"contract": "C02.trace_dense", "a": spec, "variant": vname}
         else:
             yield _rand_einsum_case(rng, sym)
